@@ -31,9 +31,20 @@ CLAIMS = {
     "C06": dict(
         text="Coq theorems: best_match's answer is None iff neither matches, else a matching argument such that no matching candidate is strictly better under (higher dewey version, then byte-wise smaller name); argument order is irrelevant; the both-match choice is the minimum of a total order (antisymmetry, transitivity proved from C03), so pairwise reduction over ANY tree is invariant under every permutation and association of the candidates (C06_reduce_any_tree) and returns a best matching candidate (C06_reduction_winner). Correspondence each run: every ordered pair of candidate lists through best_match vs the model; permutations / folds recomputed from the implementation's own pairwise answers.",
         ref="§7 C06", note=TB, technique="Coq proof (total order + associativity/commutativity, Permutation) + differential correspondence + law oracle"),
+    "C07": dict(
+        text="Coq theorems over ALL entries (functions from the 23 variables to values): for every complete, well-kinded entry whose values have no CR/LF (sizes any i64, line lists non-empty) parse(print e) succeeds and returns the same value for each of the 23 variables, and printing that result reproduces the text byte for byte; the printed form is a function of the current values only, so any two call histories with equal final values print identically; every API call sequence preserves well-kindedness (no setter/pusher/getter panics); the 23 names are a bijection. The HashMap of the implementation is abstracted as a function - what the abstraction hides (iteration order, RandomState) is exercised each run by building every entry through two different call histories and comparing print + all getters + re-parse with the model.",
+        ref="§7 C07", note=TB + " str::lines, splitn(2,'='), i64 FromStr/Display are modelled (Dec.v proves the i64 print/parse round trip).",
+        technique="Coq proof (fold invariant over lines; i64 decimal round trip) + model/implementation differential correspondence + history oracle"),
+    "C08": dict(
+        text="Coq theorems for ALL texts: parsing succeeds iff every line is VAR=value with VAR one of the 23 names, integer sizes, and the eleven required variables present (C08_accept_iff); otherwise the error is the cause of the FIRST offending line (no '=' / unknown variable / bad integer) or else the first missing required variable in the fixed order; an accepted text means: value = everything after the first '=', list variables accumulate in input order, a repeated single-valued variable keeps its last value (C08_semantics via the declarative `collect`); is_completed iff the eleven are set. Correspondence each run: shuffled/repeated canonical entries with one (or two) injected faults, CRLF, unterminated last line.",
+        ref="§7 C08", note=TB, technique="Coq proof (snoc-induction over lines with a collect invariant) + model/implementation differential correspondence"),
+    "C09": dict(
+        text="Coq theorems for ALL lists of entries and ALL partitions into chunks (no bound on sizes or number of cuts): on a well-formed UTF-8 stream every write succeeds, the collected entries equal the stream's entries in order, the carry-over buffer ends empty, the result equals the one-call result and printing the collection reproduces the stream (C09_chunk_independent, C09_same_as_whole); with a malformed UTF-8 entry after any number of good ones, all earlier writes succeed, exactly the write receiving the last byte of that entry fails, and the collected entries are exactly the good ones (C09_malformed). Generic in parser/validity, then instantiated with the proved pkg_summary parser and a UTF-8 validity DFA (closure under concatenation and newline-prefixes proved). Correspondence each run: every single cut, fixed sizes 1-9, random partitions (thorough: cut pairs) of generated streams with 2/3/4-byte characters, good and malformed; chunked vs whole vs stream vs model.",
+        ref="§7 C09, §8 D5", note=TB + " std::str::from_utf8 is modelled by utf8_valid (Summary.v); Vec/windows/rposition/split_terminator by list functions.",
+        technique="Coq proof (prefix decomposition of well-formed streams, induction over chunk lists) + model/implementation differential correspondence + chunking oracle"),
     "C18": dict(
         text="Coq theorems for all strings: with a '-' base ++ '-' ++ version rebuilds the name and the version has no '-'; without, the whole string is the base; for EVERY prefix p a version p++'nb'++digits has PkgName revision nbval(digits) and the version comparison's revision is the same number (no token of the tokeniser can straddle the final nb); no 'nb' -> None. Correspondence each run: PkgName::new vs model on structured names, plus probes of the matcher's revision through 'base>=VERnbK' patterns.",
-        ref="§7 C18", note=TB + " The pkg_summary pkgbase()/pkgversion() half is covered with the Summary model (C07/C08) when built.",
+        ref="§7 C18", note=TB + " The pkg_summary pkgbase()/pkgversion() agreement is C18_summary_agrees (SummaryPkg.v).",
         technique="Coq proof (strong induction over token boundaries) + model/implementation differential correspondence"),
 }
 
